@@ -85,6 +85,9 @@ func verifyFromPixieTx(native *native.NativeService, proof, extra []byte, fromCh
 	if err != nil {
 		return nil, fmt.Errorf("verifyFromPixieTx, GetCanonicalHeader height:%d, error:%s", height, err)
 	}
+	if headerWithSum == nil {
+		return nil, fmt.Errorf("verifyFromPixieTx, GetCanonicalHeader height:%d, error:no canonical header at this height", height)
+	}
 
 	pixieProof := new(Proof)
 	err = json.Unmarshal(proof, pixieProof)
